@@ -1,4 +1,5 @@
 import Rp2.Proofs.PermInvariance
+import Rp2.Proofs.SheetOrder
 import Rp2.Proofs.SortPerm
 /-! # C17 — results depend only on the input: deterministic, order- and asset-independent
 The model is a pure function of its input by construction (every definition is a Lean function; no state, no I/O). What
@@ -28,4 +29,15 @@ example : ([(3, 0), (1, 1), (2, 2)] : List (Int × Nat)).Perm [(2, 2), (3, 0), (
   constructor
   · decide
   · decide
+/-- **whole-run model: the order of the sheets in the workbook is irrelevant** (sheets are looked up by name; names are distinct): same exit
+    status, same files, same reports cell for cell -/
+theorem model_sheet_order_irrelevant (o : Cli.Options) (cfg : Config) (g₁ g₂ : List (String × List (List Cell)))
+    (hp : g₁.Perm g₂) (hnd : (g₁.map (·.1)).Nodup) : Cli.runCells o cfg g₁ = Cli.runCells o cfg g₂ := Cli.runCells_sheet_order o cfg g₁ g₂ hp hnd
+/-- **whole-run model: an asset's computed data depend on that asset's own sheet only**: in a run over any list of assets the k-th result
+    is `compute` of the k-th asset's transactions under the run's options, whichever other assets are processed with it -/
+theorem model_asset_results_independent_of_other_assets (o : Cli.Options) (acctName : Nat → String) (period : Nat) (sched : List (Int × Method))
+    (names : List String) (sheets : List Cli.AssetIn) (cs : List Computed) (h : Cli.computeAll o acctName period sched names sheets = .ok cs) :
+    ∀ p ∈ names.zip cs, ∃ s, sheets.find? (·.name == p.1) = some s ∧
+      compute p.1 acctName (period : Int) o.allowNeg o.fromD o.toD sched s.ins s.outs s.intras = .ok p.2 :=
+  Cli.computeAll_pointwise o acctName period sched names sheets cs h
 end Rp2.C17
